@@ -514,7 +514,8 @@ def execute(plan, rec):
             continue
         if kind == 'd_new':
             _, s, objs, props, bools = ev
-            out = call(Definition, objs, props, [tuple(bool(b) for b in r) for r in bools])
+            out = call(Definition, objs, props, [tuple(bool(b) for b in r) for r in bools] if index % 2 else
+                       [list(r) for r in bools])   # cells by truthiness (0/1 ints)
             try:
                 _model_apply(models, ev)
                 accepted = True
